@@ -7,6 +7,9 @@ pub mod c06;
 pub mod c07;
 pub mod c08;
 pub mod c09;
+pub mod c11;
+pub mod c12;
+pub mod c15;
 pub mod backend;
 pub mod common;
 
@@ -26,6 +29,9 @@ pub fn run_check(ctx: &Ctx) -> i32 {
         "C09" => c09::check(ctx),
         "C10" => c09::run(ctx, &c09::c10_spec(ctx)),
         "C13" => c09::run(ctx, &c09::c13_spec(ctx)),
+        "C11" => c11::check(ctx),
+        "C12" => c12::check(ctx),
+        "C15" => c15::check(ctx),
         other => {
             eprintln!("unknown property {other}");
             2
@@ -54,6 +60,9 @@ pub fn run_replay(ctx: &Ctx, file: &Path) -> i32 {
         "C07" => c06::replay(ctx, crate::pipeline::Arch::A64, &sub, &bytes, &v["case"]),
         "C08" => c08::replay(ctx, &sub, &bytes, &v["case"]),
         "C09" => c09::replay(ctx, &c09::c09_spec(ctx), &sub, &bytes, &v["case"]),
+        "C11" => c11::replay(ctx, &sub, &bytes, &v["case"]),
+        "C12" => c12::replay(ctx, &sub, &bytes, &v["case"]),
+        "C15" => c15::replay(ctx, &sub, &bytes, &v["case"]),
         "C10" => c09::replay(ctx, &c09::c10_spec(ctx), &sub, &bytes, &v["case"]),
         "C13" => c09::replay(ctx, &c09::c13_spec(ctx), &sub, &bytes, &v["case"]),
         other => {
